@@ -258,3 +258,24 @@
 (assert (forall ((n Int) (t Int))
   (! (and (= (llenS n t) (llen n t)) (=> (> t 0) (= (llen n t) (div (+ (llen n (- t 1)) 1) 2))))
      :pattern ((llenS n t)))))
+; ---- WOTS+ signing and key generation (RFC 8391 Algorithms 4, 5) ----
+; secret chain start i = PRF(seed, toByte(i,32)); signature element i = chain from 0 over digit_i steps; public-key
+; element i = chain from 0 over w-1 steps
+(declare-fun wsigNode (Int (Array Int Int) (Array Int Int) (Array Int Int) Int (Array Int Int) Int Int Int Int Int Int Int) (Array Int Int))
+;@ needs wsigNode
+;@ defines wsigNode
+(assert (forall ((hf Int) (PS (Array Int Int)) (A (Array Int Int)) (SK (Array Int Int)) (sko Int) (M (Array Int Int)) (mo Int) (lw Int) (w Int) (len1 Int) (sh Int) (nb Int) (i Int))
+  (! (= (wsigNode hf PS A SK sko M mo lw w len1 sh nb i)
+        (chain hf PS (store A 5 i) (prfArr hf (sub SK sko 32) (toByte32 i)) 0 (wdig M mo i lw w len1 sh nb)))
+     :pattern ((wsigNode hf PS A SK sko M mo lw w len1 sh nb i)))))
+(declare-fun wgenNode (Int (Array Int Int) (Array Int Int) (Array Int Int) Int Int Int) (Array Int Int))
+;@ needs wgenNode
+;@ defines wgenNode
+(assert (forall ((hf Int) (PS (Array Int Int)) (A (Array Int Int)) (SK (Array Int Int)) (sko Int) (w Int) (i Int))
+  (! (= (wgenNode hf PS A SK sko w i)
+        (chain hf PS (store A 5 i) (prfArr hf (sub SK sko 32) (toByte32 i)) 0 (- w 1)))
+     :pattern ((wgenNode hf PS A SK sko w i)))))
+; wshiftOf(lw) = 8 - (len2 * lw) % 8 for the three WOTS+ parameter sets (lw = 4, 2, 8 with len2 = 3, 5, 2)
+(declare-fun wshiftOf (Int) Int)
+;@ needs wshiftOf
+(assert (and (= (wshiftOf 4) 4) (= (wshiftOf 2) 6) (= (wshiftOf 8) 8)))
